@@ -605,7 +605,8 @@ def plan(tier):
     # git commands that do not ask for a word diff - among them options of which a word-diff option is a prefix
     # or extension - must not change how hunk lines are read
     for c in (["git", "diff", "--color=always"], ["git", "log", "-p", "--color", "--stat", "--word"],
-              ["git", "show", "--color-moved", "--relative=x"], ["git", "reflog", "-p", "--colour-words"]):
+              ["git", "show", "--color-moved", "--relative=x"], ["git", "reflog", "-p", "--colour-words"],
+              ["git", "diff", "--word-diff=none"]):
         tasks.append((specs[0], "caller=" + " ".join(c), {"_caller": c}))
         tasks.append((("B", 2, ["modified", "rename_change", "mode"], ["ctx", "minusplus"], "git"),
                       "caller=" + " ".join(c), {"_caller": c}))
